@@ -44,12 +44,17 @@ def to_tree(text):
         return ['jobj'] + [['kv', hx(k), conv(v)] for k, v in x[1]]
     return conv(json.loads(text, object_pairs_hook=hook))
 
-REPL = [None, True, 0, -1, 1.5, 2 ** 64, -2 ** 63 - 1, '', 'x', 'int', 'record', 'bool', '.', 'a..b', '9a', 'a.b.', [], {}, ['null', 'null'],
+REPL = [None, True, 0, -1, 1.5, 2 ** 64, -2 ** 63 - 1, '', 'x', 'int', 'record', 'bool', '.', 'a..b', '9a', 'a.b.', '_a.B', 'a._b.C', '_', '_._', 'a.9b.C', [], {}, ['null', 'null'],
         ['int', ['null']], {'type': 'int'}, {'type': 'record'}, {'type': 'fixed', 'name': 'Q', 'size': -1},
         {'type': 'enum', 'name': 'Q', 'symbols': ['A', 'A']}, {'type': 'enum', 'name': 'Q', 'symbols': ['A'], 'default': 'B'},
         {'type': 'fixed', 'name': 'Q', 'size': 1.5}, 'Q', {'type': 'fixed', 'name': 'Rec1', 'size': 2}, 1e400 if False else 1e308]
 KEYS = ['type', 'name', 'namespace', 'fields', 'symbols', 'items', 'values', 'size', 'logicalType', 'default', 'aliases', 'doc',
         'precision', 'scale', 'order']
+
+def _get(x, p):
+    for q in p:
+        x = x[q]
+    return x
 
 def mutate(r, js):
     """one JSON-level mutation: replace / drop / add a key / duplicate an element, at a random position"""
@@ -64,6 +69,15 @@ def mutate(r, js):
             for i, v in enumerate(x):
                 walk(v, path + (i,))
     walk(js, ())
+    if r.chance(1, 4):
+        # set the default of a record field to a near-miss value
+        fields = [p for p in nodes if p and isinstance(_get(js, p), dict) and 'name' in _get(js, p) and 'type' in _get(js, p)
+                  and len(p) >= 2 and p[-2] == 'fields']
+        if fields:
+            f = _get(js, r.choice(fields))
+            f['default'] = r.choice(['x', 'not-a-uuid', '', 0, -1, 1.5, None, True, [], {}, 'S0', 'A', 'ÿ', [0], {'k': 1}, 2 ** 40,
+                                     '12345678-1234-1234-1234-123456789abc'])
+            return js, 'set-field-default'
     path = r.choice(nodes)
     if not path:
         return r.choice(REPL), 'replace-root'
@@ -123,3 +137,80 @@ def has_logical(js):
     if isinstance(js, dict):
         return 'logicalType' in js or any(has_logical(v) for k, v in js.items() if k in ('type', 'items', 'values', 'fields'))
     return False
+
+
+import re
+UUID_RE = re.compile(r'^[0-9a-fA-F]{8}-?[0-9a-fA-F]{4}-?[0-9a-fA-F]{4}-?[0-9a-fA-F]{4}-?[0-9a-fA-F]{12}$')
+
+def default_conforms(t, d, defs):
+    """does the JSON default d conform to the schema JSON t?  True / False / None (not decided by this oracle).
+    A union default may match any branch (the library's documented leniency; the specification says the first)."""
+    if isinstance(t, list):
+        rs = [default_conforms(b, d, defs) for b in t]
+        if any(x is True for x in rs):
+            return True
+        return False if rs and all(x is False for x in rs) else None
+    if isinstance(t, str):
+        if t == 'null':
+            return d is None
+        if t == 'boolean':
+            return isinstance(d, bool)
+        if t == 'int':
+            return isinstance(d, int) and not isinstance(d, bool) and -2 ** 31 <= d < 2 ** 31
+        if t == 'long':
+            return isinstance(d, int) and not isinstance(d, bool) and -2 ** 63 <= d < 2 ** 63
+        if t in ('float', 'double'):
+            return None if isinstance(d, str) else (isinstance(d, (int, float)) and not isinstance(d, bool))
+        if t == 'string':
+            return isinstance(d, str)
+        if t == 'bytes':
+            return isinstance(d, str) and all(ord(c) < 256 for c in d) if isinstance(d, str) else (None if isinstance(d, list) else False)
+        return None          # a reference
+    if not isinstance(t, dict):
+        return None
+    ty = t.get('type')
+    lt = t.get('logicalType')
+    if isinstance(ty, (dict, list)):
+        return default_conforms(ty, d, defs) if lt is None else None
+    if lt == 'uuid' and ty == 'string':
+        return isinstance(d, str) and bool(UUID_RE.match(d))
+    if lt is not None:
+        return None
+    if ty == 'enum':
+        return isinstance(d, str) and (d in t.get('symbols', []) or 'default' in t) if isinstance(t.get('symbols'), list) else None
+    if ty == 'fixed':
+        return (None if not isinstance(d, str) else None)
+    if ty == 'array':
+        if not isinstance(d, list):
+            return None if isinstance(d, str) else False
+        rs = [default_conforms(t.get('items'), x, defs) for x in d]
+        return False if any(x is False for x in rs) else (True if all(x is True for x in rs) else None)
+    if ty == 'map':
+        if not isinstance(d, dict):
+            return False
+        rs = [default_conforms(t.get('values'), x, defs) for x in d.values()]
+        return False if any(x is False for x in rs) else (True if all(x is True for x in rs) else None)
+    if ty == 'record':
+        return None if isinstance(d, dict) else False
+    if isinstance(ty, str):
+        return default_conforms(ty, d, defs) if set(t) - {'type'} == set() or True else None
+    return None
+
+def nonconforming_defaults(js, out, defs=None):
+    """(field name, default) pairs of the schema JSON whose default certainly does not conform"""
+    if isinstance(js, list):
+        for x in js:
+            nonconforming_defaults(x, out)
+    elif isinstance(js, dict):
+        if js.get('type') == 'record' and isinstance(js.get('fields'), list):
+            for f in js['fields']:
+                if isinstance(f, dict) and 'type' in f:
+                    if 'default' in f and default_conforms(f['type'], f['default'], defs) is False:
+                        out.append((f.get('name'), f['default']))
+                    nonconforming_defaults(f['type'], out)
+        for k in ('items', 'values'):
+            if k in js:
+                nonconforming_defaults(js[k], out)
+        if isinstance(js.get('type'), (dict, list)):
+            nonconforming_defaults(js['type'], out)
+    return out
